@@ -119,7 +119,9 @@ def main():
             "add_only": True,
         },
         "engines": [{"name": "tlc", "path": "/opt/veriftools/tla/tla2tools.jar",
-                     "serves_properties": sorted(claimed), "kind_free_text": "TLC 1.8 explicit-state model checker: exhaustive design configurations and trace validation"}],
+                     "serves_properties": sorted(claimed), "kind_free_text": "TLC 1.8 explicit-state model checker: exhaustive design configurations and trace validation"},
+                    {"name": "apalache", "path": "/opt/veriftools/apalache/bin/apalache-mc", "serves_properties": ["C27"],
+                     "kind_free_text": "Apalache 0.58 symbolic model checker: the rounding identities of IntRound for unbounded integers (part of the design result of C27)"}],
         "checks": checks,
         "not_applicable": na,
         "notes": "All checks: bin/check <id> <quick|thorough>; specification in /verif/spec; see DESIGN.md.",
